@@ -370,6 +370,23 @@ class Evaluator:
                 self.assign(st.target, self.ev(st.value, env, fi), env, fi)
         elif isinstance(st, ast.AugAssign):
             cur = self.ev(_as_load(st.target), env, fi)
+            if isinstance(cur, Obj):
+                self.events.append(("inplace-op", cur, type(st.op).__name__, st))
+            if isinstance(cur, (list, dict, set)) and isinstance(st.target, ast.Name):
+                # list += ..., dict |= ..., set |= ... mutate the object in place
+                rhs = self.ev(st.value, env, fi)
+                if isinstance(cur, list) and isinstance(st.op, ast.Add):
+                    cur.extend(self.iterate(rhs, st))
+                    return
+                if isinstance(cur, dict) and isinstance(st.op, ast.BitOr) and isinstance(rhs, dict):
+                    cur.update(rhs)
+                    return
+                if isinstance(cur, set) and isinstance(st.op, ast.BitOr):
+                    cur.update(self.iterate(rhs, st))
+                    return
+                v = self.binop(st.op, cur, rhs, st)
+                self.assign(st.target, v, env, fi)
+                return
             v = self.binop(st.op, cur, self.ev(st.value, env, fi), st)
             self.assign(st.target, v, env, fi)
         elif isinstance(st, ast.If):
@@ -541,6 +558,8 @@ class Evaluator:
                 base[k] = v
             elif isinstance(base, Obj) or base is TOP:
                 self.events.append(("setitem", base, k, v, t))
+            elif isinstance(base, BoundMethod) and isinstance(base.recv, Obj):
+                self.events.append(("setitem-via-attr", base.recv, base.name, k, v, t))
             else:
                 raise Unmodelled("subscript store", t)
         elif isinstance(t, ast.Attribute):
@@ -570,6 +589,9 @@ class Evaluator:
             return list(it)
         if isinstance(it, str):
             return list(it)
+        if isinstance(it, (Sym, Text)):
+            self.events.append(("label-iterated", it, node))
+            raise Unmodelled(f"iteration over the characters of the label {it!r}", node)
         if isinstance(it, _Iter):
             return list(it.items)
         if isinstance(it, type({}.keys())) or isinstance(it, type({}.values())) or isinstance(it, type({}.items())):
@@ -1064,6 +1086,8 @@ class Evaluator:
             return {ast.Lt: l < r, ast.LtE: l <= r, ast.Gt: l > r, ast.GtE: l >= r}[type(op)]
         if isinstance(l, str) and isinstance(r, str):
             return {ast.Lt: l < r, ast.LtE: l <= r, ast.Gt: l > r, ast.GtE: l >= r}[type(op)]
+        if isinstance(l, (Sym, Text)) or isinstance(r, (Sym, Text)):
+            self.events.append(("label-ordered", l, r, node))
         return TOP
 
     def e_Yield(self, e, env, fi):
@@ -1511,6 +1535,9 @@ class Evaluator:
             return _Iter(list(reversed(self.iterate(args[0], node))))
         if name == "sorted":
             items = self.iterate(args[0], node)
+            if any(isinstance(x, (Sym, Text)) for x in items) and len(items) > 1:
+                self.events.append(("label-ordered", items, None, node))
+                return TOP
             try:
                 return sorted(items)
             except TypeError:
